@@ -104,6 +104,29 @@ func runC15(c *Ctx) {
 		if err != nil {
 			panic(err)
 		}
+		// a user token written by another implementation: the same claims, the JSON text spelled differently (blanks after
+		// colons, an escape inside the kind, member names in another letter case, line breaks) and signed over that text
+		if i%4 == 3 {
+			raw, _ := b64.DecodeString(strings.Split(tok, ".")[1])
+			pj := string(raw)
+			switch (i / 4) % 5 {
+			case 0:
+				pj = strings.ReplaceAll(pj, `":`, `": `)
+			case 1:
+				pj = strings.Replace(pj, `"type":"user"`, `"type":"\u0075ser"`, 1)
+			case 2:
+				pj = strings.Replace(pj, `"type":"user"`, `"TYPE":"user"`, 1)
+			case 3:
+				pj = strings.ReplaceAll(pj, `,"`, ",\n \"")
+			default:
+				pj = strings.Replace(pj, `"type":"user"`, `"type" :\t"user"`, 1)
+			}
+			ft := forge(hdrV2, pj, "v2", kr.by["account"])
+			if d, derr := jwt.DecodeUserClaims(ft.Token); derr == nil && d != nil {
+				tok = ft.Token
+				c.count("user_token_spelled_by_another_implementation")
+			}
+		}
 		c.sum.Evaluations++
 		c.sum.ImplChecks++
 		inp := map[string]interface{}{"token": tok, "token_length": len(tok)}
